@@ -377,3 +377,11 @@ Proof.
       * destruct (Nat.eqb n 201); [destruct (Nat.eqb (o_set s) 1)|]; inversion E; subst s1; rewrite H0 in E1; discriminate.
       * destruct (String.eqb k "Location"); [destruct (o_created s); [destruct (_ && _)|]|]; inversion E; subst s1; rewrite H0 in E1; discriminate.
 Qed.
+
+(* what holds of every leaf holds of the result of every run *)
+Lemma leaves_runs {A} (R : A -> Prop) (m : prog A) : leaves R m -> forall tr a, runs m tr a -> R a.
+Proof.
+  induction m as [x|e k IH]; simpl; intros Hl tr a Hr.
+  - destruct Hr as [_ <-]. exact Hl.
+  - destruct tr as [|[e' x] tr]; [destruct Hr|]. destruct Hr as [_ Hr]. eapply IH; [apply Hl|exact Hr].
+Qed.
